@@ -52,6 +52,7 @@ structure St where
   clock : Nat := 0                 -- ghost: global step counter
   attaches : Nat := 0              -- ghost: number of calls made
   execs : Nat := 0                 -- ghost: number of executions started
+  owner : Option Nat := none       -- ghost: the call that is between "set running" and "cleared the successor"
 
 def inR (pc : Pc) : Bool := pc == .running || pc == .swapped || pc == .working || pc == .returned
 
@@ -73,7 +74,8 @@ def deliverSt (s : St) (t : Nat) : St :=
 /-- a parked call finds its item neither running nor complete: it becomes the runner -/
 def runSt (s : St) (t : Nat) : St :=
   let th := s.threads t
-  { s with threads := upd s.threads t { th with pc := .running }, items := upd s.items th.item { s.items th.item with running := true } }
+  { s with threads := upd s.threads t { th with pc := .running }, items := upd s.items th.item { s.items th.item with running := true },
+           owner := some t }
 
 /-- what a call does once it is attached to its item and holds its mutex: wait, deliver, or become the runner -/
 def enter (s : St) (t : Nat) : St :=
@@ -113,7 +115,7 @@ def clearSt (s : St) (t : Nat) : St :=
   let nx := s.items th.next
   { s with items := upd s.items th.next { nx with running := false },
            map := if nx.count = 0 then none else s.map,
-           threads := upd s.threads t { th with pc := .done } }
+           threads := upd s.threads t { th with pc := .done }, owner := none }
 
 /-- the map has no item for the key: `call` creates one -/
 def alloc (s : St) : St :=
